@@ -25,6 +25,7 @@ import (
 type Case struct {
 	FS   string   `json:"fs"`
 	Base string   `json:"base"` // base directory in the underlying file system
+	Spell int     `json:"spell,omitempty"` // how the base directory is spelt for NewWithErr: 0 clean, 1 trailing separator, 2 "/.", 3 "<base>2/../<name>"
 	Ops  []fsx.Op `json:"ops"`
 }
 
@@ -85,7 +86,27 @@ func sentinels(base string) []fsx.Op {
 	}
 }
 
-func newInst(kind, base string) (*inst, error) {
+// spellBase: the base directory as a caller may write it - clean, with a trailing separator,
+// with a final "." or by way of its sibling and "..". All name the same directory; the wrapper
+// must behave the same whichever is given.
+func spellBase(text string, spell int, win bool) string {
+	sep := "/"
+	if win {
+		sep = `\`
+	}
+	switch spell {
+	case 1:
+		return text + sep
+	case 2:
+		return text + sep + "."
+	case 3:
+		i := strings.LastIndex(text, sep)
+		return text + "2" + sep + ".." + sep + text[i+1:]
+	}
+	return text
+}
+
+func newInst(kind, base string, spell int) (*inst, error) {
 	win := strings.HasSuffix(kind, "-win")
 	bk := strings.TrimSuffix(kind, "-win")
 	in := &inst{kind: kind, base: base, orefa: bk == "OrefaFS", win: win}
@@ -127,7 +148,7 @@ func newInst(kind, base string) (*inst, error) {
 			_ = x.Chmod(in.baseText, fi.Mode().Perm())
 		}
 	}
-	w, err := basepathfs.NewWithErr(x, in.baseText)
+	w, err := basepathfs.NewWithErr(x, spellBase(in.baseText, spell, win))
 	if err != nil {
 		return nil, err
 	}
@@ -405,7 +426,7 @@ func (in *inst) close() {
 }
 
 func run(c *vt.Ctx, cs Case) *vt.Deviation {
-	in, err := newInst(cs.FS, cs.Base)
+	in, err := newInst(cs.FS, cs.Base, cs.Spell)
 	if err != nil {
 		c.Inconclusive("instance: " + err.Error())
 		return nil
@@ -507,7 +528,7 @@ func TestCheck(t *testing.T) {
 								o = fsx.Op{K: "Rename", P: hp, P2: hp2}
 							}
 							ops = append(ops, o, fsx.Op{K: "Getwd"})
-							cs := Case{FS: kind, Base: base, Ops: ops}
+							cs := Case{FS: kind, Base: base, Ops: ops, Spell: int(vt.Hash64(kind, base, cd, o.String()) % 4)}
 							if dev := run(c, cs); dev != nil {
 								c.Report(dev, cs)
 							}
@@ -523,8 +544,8 @@ func TestCheck(t *testing.T) {
 		}
 		c.Rapid("hist-"+kind, ncases, func(t *rapid.T) *vt.Failure {
 			base := rapid.SampledFrom(bases).Draw(t, "base")
-			cs := Case{FS: kind, Base: base}
-			in, err := newInst(kind, base)
+			cs := Case{FS: kind, Base: base, Spell: rapid.IntRange(0, 3).Draw(t, "spell")}
+			in, err := newInst(kind, base, cs.Spell)
 			if err != nil {
 				c.Inconclusive("instance: " + err.Error())
 				return nil
